@@ -34,7 +34,7 @@ func init() {
 			"unaffected by removing another upstream, port-independent; least_conn = minimum connections; random = every available seen). Concurrent round_robin histories are checked with porcupine; tight concurrent loops on an all-available pool must return every upstream floor(T/n)..ceil(T/n) times. " +
 			"Provisioned pools: the proxy handler is loaded from JSON (passive policy none / fail_duration only / max_fails 2 / unhealthy_connection_count / both, per-upstream max_connections, 1-2 peers), " +
 			"peer counters are set, and every policy must return an upstream that is available under the limits the configuration implies (default max_fails 1, unhealthy_connection_count as default max_connections). " +
-			"non-trivial = pool has both available and unavailable members; distinct = hash(policy, parameters, state)",
+			"non-trivial = pool has both available and unavailable members; distinct = hash(policy, parameters, state). a quarter of the provisioned cases use a twin handler: the state is set through one handler instance and the policy of a second instance provisioned from the same configuration is asked.",
 		Assumptions: []string{
 			"pool state is constructed through the verif-tagged export VerifNewUpstream (white-box) and is static during a sequential case",
 			"ip_hash returning none when an FNV hash is 0 (2^-32 per input) is out of reach of sampling",
